@@ -1,16 +1,16 @@
 (* Every action kind that has a proved simulation lemma, together; whole plans of such actions. *)
-From VV.MYSQL Require Import SpecFk SimP SimKeysP SimCreateP SimFkP SimRemoveP SimRenameP.
+From VV.MYSQL Require Import SpecFk SimP SimKeysP SimCreateP SimFkP SimRemoveP SimRenameP SimDeleteKeysP SimRenameNamedP.
 
 Theorem sim_proved : forall s a, sim_proved_for s a = true -> action_sim s a.
 Proof.
   intros s a H. destruct a as [tb cols0 ks0|tb|tb cl fw|tb f2 t2|tb cn|tb cn ty fw|tb cn nl fw|tb cn nd|tb cn nc|tb k|tb k|f2 t2|sql];
-    cbn [sim_proved_for] in H.
+    cbn [sim_proved_for sim_proved_for_r3] in H.
   - apply sim_create_table. exact H.
   - intros s' Ha P. apply Bool.negb_true_iff in H.
     destruct (sim_delete_table s P tb s' (catalog_of s) eq_refl Ha H) as [st [G R]]. exists st. split; assumption.
   - apply sim_add_column. exact H.
-  - apply sim_rename_column. exact H.
-  - apply sim_delete_column. exact H.
+  - apply Bool.orb_true_iff in H. destruct H as [H|H]; [apply sim_rename_column|apply sim_rename_column_named]; exact H.
+  - apply Bool.orb_true_iff in H. destruct H as [H|H]; [apply sim_delete_column|apply sim_delete_column_keys]; exact H.
   - apply sim_modify_column. exact H.
   - apply sim_modify_column. exact H.
   - apply sim_modify_column. exact H.
